@@ -97,11 +97,11 @@ func c04Job(k c04Case, style string, which []string) string {
 func C04(c *Ctx) *kf.Report {
 	rep := &kf.Report{Property: "C04", Level: "model_checking", Coverage: map[string]any{}}
 	rep.Assumptions = []string{
-		"operator table of Expr.tla: 24 binary operators on 13 levels, prefix ! - ~ and the casts (int) (string); ternary and assignment are not in the tree model",
+		"operator table of Expr.tla: 24 binary operators on 13 levels, prefix ! - ~ and the casts (int) (string), and the ternary ?: below all of them (nested ternaries always parenthesised); assignment is not in the tree model",
 		"both printings are evaluated by the real interpreter; the values of the two fully parenthesised groupings (also evaluated by the interpreter) decide whether an operand tuple discriminates a pair",
 		"three renderings: variables, spaced literals, literals glued to the preceding operator (signed-number tokens)",
 	}
-	fams := []string{"pairs", "unary", "triples"}
+	fams := []string{"pairs", "unary", "ternary", "triples"}
 	var cases []c04Case
 	for _, f := range fams {
 		res := runTLC(rep, tlc.Run{SpecDir: c.SpecDir(), Module: "Expr", Cfg: "Expr.cfg", Consts: map[string]string{"FAMILY": f}, Timeout: 10 * time.Minute})
@@ -223,7 +223,7 @@ func C04(c *Ctx) *kf.Report {
 	rep.Coverage["distinct_nontrivial"] = len(discriminated)
 	rep.Coverage["unsupported_in_both_printings"] = unsupported
 	rep.Coverage["exhaustive"] = true
-	rep.Coverage["rule"] = "every tree of the pairs and unary families (all 24x24 operator pairs in both groupings; prefix operators in every position) and a sample (thorough: a third) of the 69120 triples; each is rendered in 3 styles x 6 operand tuples and MinPrint / FullPrint are evaluated on the real interpreter; non-trivial = operator pairs for which some tuple gives the two groupings different values"
+	rep.Coverage["rule"] = "every tree of the pairs, unary and ternary families (all 24x24 operator pairs in both groupings; prefix operators in every position; a ternary above, below and beside every binary operator) and a sample (thorough: a third) of the 69120 triples; each is rendered in 3 styles x 6 operand tuples and MinPrint / FullPrint are evaluated on the real interpreter; non-trivial = operator pairs for which some tuple gives the two groupings different values"
 	if len(cases) > 0 {
 		rep.Coverage["samples"] = []any{jobs[0].Src}
 	}
